@@ -335,3 +335,24 @@ pub fn gen_c14(out: &mut dyn Write, thorough: bool, seed: u64) {
         }
     }
 }
+
+/// C18: the union of the prediction / tagging / filtering / writing cases, judged only on "no panic": the harness is built
+/// with debug assertions and overflow checks, so every `debug_assert!` guarding an unchecked access and std's own
+/// unsafe-precondition checks fire as panics
+pub fn gen_c18(out: &mut dyn Write, thorough: bool, seed: u64) {
+    let mut buf: Vec<u8> = vec![];
+    gen_c08(&mut buf, thorough, seed ^ 0x18);
+    gen_c06(&mut buf, thorough, seed ^ 0x1806);
+    gen_c14(&mut buf, thorough, seed ^ 0x1814);
+    crate::gen_sent::gen_c15(&mut buf, false, seed ^ 0x1815);
+    for line in String::from_utf8_lossy(&buf).lines() {
+        if line.starts_with("E ") {
+            continue;
+        }
+        let mut toks: Vec<&str> = line.split(' ').collect();
+        if matches!(toks.last(), Some(&"c08") | Some(&"c06") | Some(&"c14") | Some(&"c15")) {
+            toks.pop();
+        }
+        writeln!(out, "{} c18", toks.join(" ")).unwrap();
+    }
+}
